@@ -330,30 +330,40 @@ func traversalGuards(c *Ctx) {
 			c.check(visited, R, d.name+"#visited", c.P.Pos(cs.call.Pos()), "recursion only for nodes not yet visited", "the recursive step is not on the negative side of the visited-set lookup")
 			c.check(boundary, R, d.name+"#boundary", c.P.Pos(cs.call.Pos()), "recursion stops at other root elements", "the recursive step is not on the negative side of the boundary (root index) lookup: traversal continues through other documents' roots")
 		}
-		// the boundary test precedes the insertion into the connected index
-		var testPos, insPos token.Pos
+		// the insertion into the connected index is on the negative side of the boundary lookup
+		var ins ast.Stmt
 		ast.Inspect(d.fd.Body, func(n ast.Node) bool {
-			switch s := n.(type) {
-			case *ast.IfStmt:
-				if as, ok := s.Init.(*ast.AssignStmt); ok && len(as.Rhs) == 1 {
-					if ix, isIx := as.Rhs[0].(*ast.IndexExpr); isIx {
-						if t := d.pkg.TypesInfo.TypeOf(ix.X); t != nil && mapShape(t) == "set" {
-							testPos = s.Pos()
-						}
-					}
-				}
-			case *ast.AssignStmt:
+			if s, ok := n.(*ast.AssignStmt); ok {
 				for _, l := range s.Lhs {
 					if ix, ok := l.(*ast.IndexExpr); ok {
 						if t := d.pkg.TypesInfo.TypeOf(ix.X); t != nil && mapShape(t) == "nodes" {
-							insPos = s.Pos()
+							ins = s
 						}
 					}
 				}
 			}
 			return true
 		})
-		c.check(testPos.IsValid() && insPos.IsValid() && testPos < insPos, R, d.name+"#boundary-before-insert", c.P.Pos(insPos),
+		guarded := false
+		insPos := d.fd.Pos()
+		if ins != nil {
+			insPos = ins.Pos()
+			for _, f := range membersAt(d, ins) {
+				if f.present {
+					continue
+				}
+				mt := f.mt
+				if mt == nil {
+					if p, ok := f.m.(*types.Var); ok {
+						mt = p.Type()
+					}
+				}
+				if mt != nil && mapShape(mt) == "set" {
+					guarded = true
+				}
+			}
+		}
+		c.check(guarded, R, d.name+"#boundary-before-insert", c.P.Pos(insPos),
 			"a boundary node is skipped before it is inserted", "a node is inserted into the connected index before (or without) the boundary test: other roots end up in the full-graph extraction")
 	}
 	// NodeDescendants
